@@ -205,6 +205,52 @@ func init() {
 		return in.ts.Not(in.ts.Eq(r, in.ts.Const(^uint64(0), 64)))
 	})
 	reg("strings.Contains", externals["bytes.Contains"])
+	// IndexAny & co. with concrete ASCII-only character sets: bytes >= 0x80 never match, so the
+	// result is the first byte that is a member of the set (exact, no UTF-8 forks)
+	anyFn := func(last bool, contains bool) extFn {
+		return func(in *Interp, fr *Frame, fn *ssa.Function, a []Value) Value {
+			chars, ok := a[1].(Str).concrete()
+			if ok {
+				for i := 0; i < len(chars); i++ {
+					if chars[i] >= 0x80 {
+						ok = false
+					}
+				}
+			}
+			if !ok {
+				return in.interpretBody(fr, fn, a)
+			}
+			ts := in.ts
+			b := bytesOf(a[0])
+			res := ts.Const(^uint64(0), 64)
+			member := func(x *Term) *Term {
+				m := ts.ff
+				for i := 0; i < len(chars); i++ {
+					m = ts.Or(m, ts.Eq(x, ts.Const(uint64(chars[i]), 8)))
+				}
+				return m
+			}
+			if last {
+				for i := 0; i < len(b); i++ {
+					res = ts.Ite(member(b[i].(*Term)), ts.Const(uint64(i), 64), res)
+				}
+			} else {
+				for i := len(b) - 1; i >= 0; i-- {
+					res = ts.Ite(member(b[i].(*Term)), ts.Const(uint64(i), 64), res)
+				}
+			}
+			if contains {
+				return ts.Not(ts.Eq(res, ts.Const(^uint64(0), 64)))
+			}
+			return res
+		}
+	}
+	reg("bytes.IndexAny", anyFn(false, false))
+	reg("strings.IndexAny", anyFn(false, false))
+	reg("bytes.LastIndexAny", anyFn(true, false))
+	reg("strings.LastIndexAny", anyFn(true, false))
+	reg("bytes.ContainsAny", anyFn(false, true))
+	reg("strings.ContainsAny", anyFn(false, true))
 	reg("internal/bytealg.MakeNoZero", func(in *Interp, fr *Frame, fn *ssa.Function, a []Value) Value {
 		n := int(in.concreteInt(fr, a[0].(*Term), "MakeNoZero"))
 		v := make([]Value, n)
@@ -734,3 +780,239 @@ func (in *Interp) bitsLen(x *Term) *Term {
 	}
 	return res
 }
+
+// interpretBody runs the real body of a function that has an intrinsic (fallback).
+func (in *Interp) interpretBody(fr *Frame, fn *ssa.Function, args []Value) Value {
+	if fn.Blocks == nil {
+		in.unsupported(fr, "external function "+fn.String())
+	}
+	in.depth++
+	nfr := in.newFrame(fr.g, fr, fn, args, nil)
+	in.runFrameLoop(nfr)
+	in.depth--
+	return nfr.result
+}
+
+// ---- fmt summaries: formatted natively when the arguments are concrete ----
+
+func (in *Interp) nativeArg(fr *Frame, v Value, depth int) interface{} {
+	iv, ok := v.(Iface)
+	if !ok {
+		return in.nativeVal(fr, nil, v, depth)
+	}
+	if iv.T == nil {
+		return nil
+	}
+	// error / Stringer
+	if depth < 3 {
+		for _, name := range []string{"Error", "String"} {
+			ms := in.prog.MethodSets.MethodSet(iv.T)
+			for i := 0; i < ms.Len(); i++ {
+				if ms.At(i).Obj().Name() == name {
+					sig := ms.At(i).Obj().Type().(*types.Signature)
+					if sig.Params().Len() == 0 && sig.Results().Len() == 1 {
+						if b, ok := sig.Results().At(0).Type().Underlying().(*types.Basic); ok && b.Kind() == types.String {
+							if isNilPtr(iv.V) {
+								return "<nil>"
+							}
+							res := in.callFunction(fr, in.prog.MethodValue(ms.At(i)), []Value{iv.V}, nil)
+							if s, ok := res.(Str).concrete(); ok {
+								return fmtStringer(s)
+							}
+							return fmtStringer("<symbolic>")
+						}
+					}
+				}
+			}
+		}
+	}
+	return in.nativeVal(fr, iv.T, iv.V, depth)
+}
+
+type fmtStringer string
+
+func (s fmtStringer) String() string { return string(s) }
+func (s fmtStringer) Error() string  { return string(s) }
+
+func (in *Interp) nativeVal(fr *Frame, t types.Type, v Value, depth int) interface{} {
+	switch x := v.(type) {
+	case *Term:
+		if !x.IsConst() {
+			return "<symbolic>"
+		}
+		if x.w == 0 {
+			return x.op == OpTrue
+		}
+		signed := true
+		if t != nil {
+			if b := basicOf(t); b != nil {
+				signed = isSigned(b)
+				if b.Kind() == types.Uint8 {
+					return uint8(x.k)
+				}
+			}
+		}
+		if signed {
+			return sext(x.k, int(x.w))
+		}
+		return x.k
+	case float64:
+		return x
+	case Str:
+		if s, ok := x.concrete(); ok {
+			return s
+		}
+		return "<symbolic string>"
+	case Slice:
+		allBytes := len(x.v) > 0
+		for _, e := range x.v {
+			if tt, ok := e.(*Term); !ok || tt.w != 8 || !tt.IsConst() {
+				allBytes = false
+			}
+		}
+		if allBytes {
+			b := make([]byte, len(x.v))
+			for i, e := range x.v {
+				b[i] = byte(e.(*Term).k)
+			}
+			return b
+		}
+		if len(x.v) == 0 {
+			return []byte{}
+		}
+		return "<slice>"
+	case nil:
+		return nil
+	}
+	return fmt.Sprintf("<%T>", v)
+}
+
+func (in *Interp) nativeArgs(fr *Frame, v Value) []interface{} {
+	var out []interface{}
+	for _, a := range v.(Slice).v {
+		out = append(out, in.nativeArg(fr, a, 0))
+	}
+	return out
+}
+
+func (in *Interp) mkError(fr *Frame, msg string) Value {
+	return in.callFunction(fr, in.findFunc("errors", "New"), []Value{mkStr(in.ts, msg)}, nil)
+}
+
+func (in *Interp) ifaceWrite(fr *Frame, w Value, s string) Value {
+	iv := w.(Iface)
+	if iv.T == nil {
+		in.rtPanic(fr, "nil Writer")
+	}
+	ms := in.prog.MethodSets.MethodSet(iv.T)
+	for i := 0; i < ms.Len(); i++ {
+		if ms.At(i).Obj().Name() == "Write" {
+			b := mkStr(in.ts, s)
+			return in.callFunction(fr, in.prog.MethodValue(ms.At(i)), []Value{iv.V, Slice{b.b}}, nil)
+		}
+	}
+	panic("ifaceWrite: no Write method")
+}
+
+func init() {
+	format := func(a []Value, in *Interp, fr *Frame) string {
+		f, ok := a[0].(Str).concrete()
+		if !ok {
+			return "<symbolic format>"
+		}
+		return fmt.Sprintf(f, in.nativeArgs(fr, a[1])...)
+	}
+	reg("fmt.Sprintf", func(in *Interp, fr *Frame, fn *ssa.Function, a []Value) Value { return mkStr(in.ts, format(a, in, fr)) })
+	reg("fmt.Sprint", func(in *Interp, fr *Frame, fn *ssa.Function, a []Value) Value {
+		return mkStr(in.ts, fmt.Sprint(in.nativeArgs(fr, a[0])...))
+	})
+	reg("fmt.Sprintln", func(in *Interp, fr *Frame, fn *ssa.Function, a []Value) Value {
+		return mkStr(in.ts, fmt.Sprintln(in.nativeArgs(fr, a[0])...))
+	})
+	reg("fmt.Errorf", func(in *Interp, fr *Frame, fn *ssa.Function, a []Value) Value {
+		f, _ := a[0].(Str).concrete()
+		msg := format(a, in, fr)
+		// %w: keep the wrapped error reachable for errors.Is/Unwrap
+		if strings.Contains(f, "%w") {
+			for _, x := range a[1].(Slice).v {
+				if iv, ok := x.(Iface); ok && iv.T != nil {
+					if types.Implements(iv.T, errorIface) || in.implementsViaMethodSet(iv.T, errorIface) {
+						e := in.mkError(fr, msg).(Iface)
+						in.wrapped[e.V.(*Value)] = iv
+						return e
+					}
+				}
+			}
+		}
+		return in.mkError(fr, msg)
+	})
+	reg("fmt.Fprintf", func(in *Interp, fr *Frame, fn *ssa.Function, a []Value) Value {
+		return in.ifaceWrite(fr, a[0], format(a[1:], in, fr))
+	})
+	reg("fmt.Fprintln", func(in *Interp, fr *Frame, fn *ssa.Function, a []Value) Value {
+		return in.ifaceWrite(fr, a[0], fmt.Sprintln(in.nativeArgs(fr, a[1])...))
+	})
+	reg("fmt.Fprint", func(in *Interp, fr *Frame, fn *ssa.Function, a []Value) Value {
+		return in.ifaceWrite(fr, a[0], fmt.Sprint(in.nativeArgs(fr, a[1])...))
+	})
+	for _, n := range []string{"fmt.Printf", "fmt.Println", "fmt.Print"} {
+		reg(n, func(in *Interp, fr *Frame, fn *ssa.Function, a []Value) Value {
+			return Tuple{in.ts.Const(0, 64), Iface{}}
+		})
+	}
+	// errors.Is / Unwrap with the engine's wrap table
+	reg("errors.Unwrap", func(in *Interp, fr *Frame, fn *ssa.Function, a []Value) Value {
+		iv := a[0].(Iface)
+		if iv.T == nil {
+			return Iface{}
+		}
+		if p, ok := iv.V.(*Value); ok {
+			if w, ok := in.wrapped[p]; ok {
+				return w
+			}
+		}
+		return in.interpretBody(fr, fn, a)
+	})
+	reg("errors.Is", func(in *Interp, fr *Frame, fn *ssa.Function, a []Value) Value {
+		err, target := a[0].(Iface), a[1].(Iface)
+		for depth := 0; depth < 20; depth++ {
+			if err.T == nil {
+				return in.ts.Bool(target.T == nil)
+			}
+			if target.T != nil && types.Identical(err.T, target.T) && types.Comparable(err.T) {
+				if in.condBool(fr, in.equals(err.T, err.V, target.V)) {
+					return in.ts.tt
+				}
+			}
+			// Unwrap
+			var next Iface
+			found := false
+			if p, ok := err.V.(*Value); ok {
+				if w, ok := in.wrapped[p]; ok {
+					next, found = w, true
+				}
+			}
+			if !found {
+				ms := in.prog.MethodSets.MethodSet(err.T)
+				for i := 0; i < ms.Len(); i++ {
+					if ms.At(i).Obj().Name() == "Unwrap" {
+						sig := ms.At(i).Obj().Type().(*types.Signature)
+						if sig.Results().Len() == 1 {
+							if _, isIface := sig.Results().At(0).Type().Underlying().(*types.Interface); isIface {
+								r := in.callFunction(fr, in.prog.MethodValue(ms.At(i)), []Value{err.V}, nil)
+								next, found = r.(Iface), true
+							}
+						}
+					}
+				}
+			}
+			if !found {
+				return in.ts.ff
+			}
+			err = next
+		}
+		return in.ts.ff
+	})
+}
+
+var errorIface = types.Universe.Lookup("error").Type().Underlying().(*types.Interface)
